@@ -21,7 +21,7 @@ ASSUMPTIONS = [
     "frame: ExpressionSolver.solve only touches self.tokens / self.expr / self.operators / self.steps (checked on the AST each run); operators and steps are never written",
 ]
 OUTSIDE = ['histories longer than 3 calls (covered by the frame argument, not enumerated)', 'operators that keep state of their own in user subclasses']
-BOUNDS = {'quick': '4 solver configurations x 18 probes x fault kinds at every leaf position of 10 expressions, history length 2 and 3',
+BOUNDS = {'quick': '5 solver configurations x 18 probes x fault kinds at every leaf position of 10 expressions, history length 2 and 3',
           'thorough': 'same with 60 sampled 3-operator expressions as first/second call'}
 EXHAUSTIVE = {'quick': False, 'thorough': False}
 PRE = "from scinumtools.solver import *\n" + exprkit.EXPR_SRC + '''
@@ -43,6 +43,10 @@ def make_solver(cfg, v):
     if cfg == 'subset':
         operators = {'par': OperatorPar, 'mul': OperatorMul, 'add': OperatorAdd}
         steps = [dict(operators=['par'], otype=Otype.ARGS), dict(operators=['mul'], otype=Otype.BINARY), dict(operators=['add'], otype=Otype.BINARY)]
+        return ExpressionSolver(AtomBase, operators, steps)
+    if cfg == 'uncovered':   # an operator that is tokenised but belongs to no step
+        operators = {'add': OperatorAdd, 'sub': OperatorSub}
+        steps = [dict(operators=['add'], otype=Otype.BINARY)]
         return ExpressionSolver(AtomBase, operators, steps)
     if cfg == 'custom-steps':
         operators = {'par': OperatorPar, 'mul': OperatorMul, 'add': OperatorAdd, 'sub': OperatorSub}
@@ -83,15 +87,19 @@ def run(v, O):
 # texts use {a}..{f} placeholders for symbolic leaves
 OK = {'default': ['{a}+{b}*{c}', '({a}-{b})/{c}', '{a}**2', 'sqrt({a})+logb({b},{c})', '{a}<{b}&&{c}', '-{a}*{b}', '!{a}||{b}'],
       'custom-atom': ['foo+{a}*bar', '({a}-foo)/bar', 'foo<bar&&{a}', '{a}*{b}'],
+      'uncovered': ['{a}+{b}', '{a}+{b}+{c}'],
       'subset': ['{a}+{b}*{c}', '({a}+{b})*{c}', '{a}*{b}'],
       'custom-steps': ['{a}+{b}*{c}', '{a}-{b}*{c}', '({a}*{b})-{c}']}
 BAD = {'default': ['{a}+{b}+x', 'x+{a}*{b}', '{a}*x+{b}', '{a}+({b}*{c}', '{a}*(({b}+{c})', '{a}+{b}*', '{a}*{b}+', '*{a}+{b}', '{a}+logb({b})', 'sin({a},{b})+{c}',
-                   '{a}+{b})', '{a} {b}', '{a}+{b}+sqrt(x)', '{a}<', '{a}&&', '({a}+x)*{b}', '{a}**', '{a}/({b}-x)'],
+                   '{a}+{b})', '{a} {b}', '{a}+{b}+sqrt(x)', '{a}<', '{a}&&', '({a}+x)*{b}', '{a}**', '{a}/({b}-x)',
+                   '({a})({b})', '({a}) {b}', 'sqrt({a}) ({b})', '{a}({b})'],
        'custom-atom': ['foo+{a}+boom', 'boom*{a}', '{a}+foo*(bar+boom)', 'foo+qux', '{a}*(foo', 'foo*', '{a}+bar+'],
+       'uncovered': ['{a}-{b}', '{a}+{b}-{c}', '{a}-x'],
        'subset': ['{a}+{b}+x', '{a}*({b}+{c}', '{a}+{b}*', '{a}-{b}', '{a}/{b}'],
        'custom-steps': ['{a}+{b}*x', '{a}-({b}*{c}', '{a}*{b}-', '{a}/{b}']}
 PROBE = {'default': ['{d}*{e}', '{d}+{e}*{f}', '({d}+{e})*{f}', '{d}<{e}', '-{d}', 'sqrt({d})', '{d}*y'],
          'custom-atom': ['{d}*bar', 'foo+{d}', '{d}*boom'],
+         'uncovered': ['{d}+{e}', '{d}', '{d}+{e}+{f}'],
          'subset': ['{d}*{e}', '{d}+{e}*{f}', '({d}+{e})*{f}'],
          'custom-steps': ['{d}*{e}', '{d}+{e}*{f}', '{d}-{e}*{f}']}
 
@@ -114,7 +122,7 @@ def scenarios(tier, seed):
     names = {n: 'real' for n in 'abcdef'}
     names.update({'foo': 'real', 'bar': 'real'})
     pre = [f'v.{n} >= 0' for n in names]
-    for cfg in ('default', 'custom-atom', 'subset', 'custom-steps'):
+    for cfg in ('default', 'custom-atom', 'subset', 'custom-steps', 'uncovered'):
         probes = PROBE[cfg]
         k = 0
         for bad in BAD[cfg]:
